@@ -1,6 +1,7 @@
 package main
 
 import (
+	"bytes"
 	"fmt"
 	"math/big"
 	"strings"
@@ -114,6 +115,12 @@ func evmErrClass(err error) string {
 	)
 }
 
+var (
+	evmSharedLegacy      = evm.NewReportCodecPremiumLegacy(logger.Nop(), 1)
+	evmSharedUnpacked    = evm.NewReportCodecEVMABIEncodeUnpacked(logger.Nop(), 1)
+	evmSharedStreamlined = evm.NewReportCodecStreamlined()
+)
+
 func evmEncodeOp(kind string) OpFunc {
 	return func(in J) any {
 		in = normalise(in).(map[string]any)
@@ -131,6 +138,21 @@ func evmEncodeOp(kind string) OpFunc {
 		case "streamlined":
 			cd.ReportFormat = llotypes.ReportFormat(jU32(in["format"]))
 			b, err = evm.NewReportCodecStreamlined().Encode(r, cd)
+		}
+		// a node keeps ONE codec of each kind for its whole life: the same call on the long-lived codec must give
+		// what a fresh one gives, whatever was encoded before (channel ids recur with other definitions)
+		var bs []byte
+		var errs error
+		switch kind {
+		case "premium":
+			bs, errs = evmSharedLegacy.Encode(r, cd)
+		case "unpacked":
+			bs, errs = evmSharedUnpacked.Encode(r, cd)
+		case "streamlined":
+			bs, errs = evmSharedStreamlined.Encode(r, cd)
+		}
+		if (err == nil) != (errs == nil) || !bytes.Equal(b, bs) {
+			return J{"ok": nil, "_clobbered": true, "_clobbered_by": "report codec Encode (" + kind + "): a codec that has encoded other reports before answers differently from a fresh one"}
 		}
 		if err != nil {
 			return resErr(evmErrClass(err), err)
